@@ -3,6 +3,7 @@ package wire
 import (
 	"bytes"
 	"errors"
+	"runtime"
 	"strconv"
 	"strings"
 
@@ -463,35 +464,101 @@ func neutralise(in []byte, marker string) ([]byte, bool) {
 	return out, found
 }
 
-// allocSite decides the dominant allocation site of an over-budget request: each feature is
-// switched off in turn and the request measured again; the feature whose removal saves most is
-// the site (when it saves at least a quarter of what was allocated).
+// coldAlloc serves input once on a fresh app after the process-wide pools were emptied (two
+// collections: sync.Pool keeps a victim generation), so that every variant of a request is
+// measured in the same state: whether a pooled decoder happened to survive does not decide.
+func coldAlloc(e *ev.Env, c *ev.Case, mk func() *fiber.App, input []byte) (uint64, bool) {
+	runtime.GC()
+	runtime.GC()
+	app := mk()
+	w := drive.NewWire(app)
+	_, _ = w.Serve(warmReq, nil)
+	var d uint64
+	p := guard(e, c, "survive", hexOf(input), func() { d = allocOf(func() { _, _ = w.Serve(input, nil) }) })
+	return d, p
+}
+
+// realContentLength rewrites the Content-Length of the first request in raw to the number of
+// body bytes that actually follow its head (false: no such header, or chunked).
+func realContentLength(raw []byte) ([]byte, bool) {
+	end := bytes.Index(raw, []byte("\r\n\r\n"))
+	if end < 0 {
+		return nil, false
+	}
+	i := indexFold(raw[:end+2], "content-length:")
+	if i < 0 || indexFold(raw[:end+2], "chunked") >= 0 {
+		return nil, false
+	}
+	j := i + len("content-length:")
+	k := j
+	for k < end && raw[k] != '\r' {
+		k++
+	}
+	out := append([]byte(nil), raw[:j]...)
+	out = append(out, " "+itoa(len(raw)-(end+4))...)
+	return append(out, raw[k:]...), true
+}
+
+// allocSite attributes the allocation of an over-budget request by evidence: the request is
+// measured again (cold pools, fresh app) with one component neutralised at a time; the component
+// whose removal alone brings the request under the limit (plus the cost of refilling cold pools,
+// measured on the benign warm-up request) is the site. Several or none: "unattributed".
 func allocSite(e *ev.Env, c *ev.Case, mk func() *fiber.App, input []byte, limit, total uint64) string {
-	type feat struct{ marker, class string }
-	best, bestSaved := "other", uint64(0)
-	for _, f := range []feat{
-		{fiber.FlashCookieName, "flash-cookie"},
-		{"content-encoding", "compressed-body-inflate"},
-		{"multipart/form-data", "multipart-form"},
-		{"content-type", "typed-body"},
-		{"transfer-encoding", "chunked-body"},
-	} {
-		alt, ok := neutralise(input, f.marker)
+	type comp struct {
+		name string
+		alt  func(in []byte) ([]byte, bool)
+	}
+	rename := func(marker string) func([]byte) ([]byte, bool) {
+		return func(in []byte) ([]byte, bool) { return neutralise(in, marker) }
+	}
+	comps := []comp{
+		{"flash-cookie", rename(fiber.FlashCookieName)},
+		{"compressed-body-inflate", rename("content-encoding")},
+		{"announced-content-length", realContentLength},
+		{"announced-chunk-size", rename("transfer-encoding")},
+		{"multipart-form", rename("multipart/form-data")},
+		{"typed-body", rename("content-type")},
+		{"range-header", rename("range:")},
+	}
+	// what the same request costs with cold pools once every component is switched off: the
+	// kitchen-sink handler itself refills a good many pools (encoders, binders, decoders)
+	bare := input
+	for _, f := range comps {
+		if alt, ok := f.alt(bare); ok {
+			bare = alt
+		}
+	}
+	_, _ = coldAlloc(e, c, mk, bare) // one-time initialisations of the handler's path, not pools
+	base, _ := coldAlloc(e, c, mk, bare)
+	threshold := max(limit, base+base/8) + 64<<10
+	if e.Verbose {
+		println("allocSite: all components off ->", base, "threshold", threshold)
+	}
+	var explains []string
+	for _, f := range comps {
+		alt, ok := f.alt(input)
 		if !ok {
 			continue
 		}
-		d, _, p := measure(e, c, "survive", mk, alt, limit, 2)
+		d, p := coldAlloc(e, c, mk, alt)
 		if e.Verbose {
-			println("allocSite: without", f.marker, "->", d)
+			println("allocSite: without", f.name, "->", d)
 		}
-		if p || d >= total {
-			continue
-		}
-		// a later, less specific feature must save clearly more to take over
-		if saved := total - d; saved > bestSaved+bestSaved/8 && saved >= total/4 {
-			best, bestSaved = f.class, saved
+		if !p && d <= threshold {
+			explains = append(explains, f.name)
 		}
 	}
+	// "typed-body" is implied by the more specific multipart component
+	if len(explains) == 2 && explains[0] == "multipart-form" && explains[1] == "typed-body" {
+		explains = explains[:1]
+	}
+	if len(explains) != 1 {
+		if e.Verbose {
+			println("allocSite: explained by", strings.Join(explains, "+"))
+		}
+		return "unattributed"
+	}
+	best := explains[0]
 	if best == "flash-cookie" {
 		best = "flash-cookie-other"
 		name := []byte(fiber.FlashCookieName + "=")
@@ -658,6 +725,9 @@ func runSurvive(e *ev.Env) {
 	one("malformed-request-line-with-word-timeout", appOpts{}, []byte("GET /ks/timeout HTTX/1.1\r\nHost: x\r\n\r\n"), 400)
 	one("malformed-header-after-keep-alive-timeout", appOpts{}, []byte("GET /ks HTTP/1.1\r\nHost: x\r\nKeep-Alive: timeout=5, max=100\r\nX(A): v\r\n\r\n"), 400)
 	one("oversized-head-after-keep-alive-timeout", appOpts{kind: cfgReadBuf}, get("/ks?rid=c9", "Keep-Alive: timeout=5, max=100\r\n", "Cookie: pad="+strings.Repeat("p", 700)+"\r\n"), 431)
+	one("announced-content-length-999999-no-body", appOpts{}, []byte("POST /ks?rid=c10 HTTP/1.1\r\nHost: x\r\nContent-Length: 999999\r\n\r\n"), 0)
+	one("announced-content-length-above-1k-limit", appOpts{kind: cfgBodyLimit}, []byte("POST /ks?rid=c11 HTTP/1.1\r\nHost: x\r\nContent-Length: 999999\r\n\r\n"), 413)
+	one("announced-chunk-size-f0000-no-data", appOpts{}, []byte("POST /ks?rid=c12 HTTP/1.1\r\nHost: x\r\nTransfer-Encoding: chunked\r\n\r\nf0000\r\n"), 0)
 	one("head-body-too-large", appOpts{}, []byte("HEAD /ks HTTP/1.1\r\nHost: x\r\nContent-Length: 99999999\r\n\r\n"), 0)
 	flashReq := func(v []byte) []byte {
 		return append(append([]byte("GET /ks?rid=c5 HTTP/1.1\r\nHost: x\r\nCookie: fiber_flash="), v...), "\r\n\r\n"...)
@@ -792,9 +862,9 @@ func surviveCase(e *ev.Env, c *ev.Case, o appOpts, reqs []*rq, raw []byte, mutat
 	var out []byte
 	if len(reqs) == 1 {
 		// (1) + (3): single request, measured
-		// the server may buffer what the client announces as body, up to the configured
-		// BodyLimit (fasthttp sizes the body buffer from Content-Length / chunk sizes)
-		limit := budget(len(raw)) + 2*min(declaredBody(raw), uint64(o.bodyLimit()))
+		// (what the client merely announces as body size is no allowance: fasthttp sizes its body
+		// buffer from Content-Length / chunk sizes up to BodyLimit, attributed below)
+		limit := budget(len(raw))
 		d, o2, panicked := measure(e, c, "survive", mk, raw, limit, 5)
 		e.Eval(1)
 		if panicked {
